@@ -33,6 +33,46 @@ impl TypeChecker {
         }
     }
 
+    /// Can a value of type `arg_ty` be passed where the trait `trait_name` is expected?
+    ///
+    /// Only models and classes adopt traits (`with T`, inherited through `extends`). Builtin traits are satisfied
+    /// by derives and by builtin types in ways this check does not see, so they accept anything, as do types the
+    /// checker could not resolve.
+    fn type_adopts_trait(&self, arg_ty: &ResolvedType, trait_name: &str) -> bool {
+        if incan_core::lang::traits::from_str(trait_name).is_some() {
+            return true;
+        }
+        let mut type_name = match arg_ty {
+            ResolvedType::Unknown | ResolvedType::TypeVar(_) | ResolvedType::SelfType => return true,
+            ResolvedType::Named(n) | ResolvedType::Generic(n, _) => n.clone(),
+            _ => return false,
+        };
+        if type_name == trait_name {
+            return true;
+        }
+        // Walk the `extends` chain (bounded by the number of symbols: a cyclic chain is reported elsewhere).
+        for _ in 0..64 {
+            let Some(sym) = self.symbols.lookup(&type_name).and_then(|id| self.symbols.get(id)) else {
+                return true;
+            };
+            match &sym.kind {
+                SymbolKind::Type(TypeInfo::Model(m)) => return m.traits.iter().any(|t| t == trait_name),
+                SymbolKind::Type(TypeInfo::Class(c)) => {
+                    if c.traits.iter().any(|t| t == trait_name) {
+                        return true;
+                    }
+                    match &c.extends {
+                        Some(parent) => type_name = parent.clone(),
+                        None => return false,
+                    }
+                }
+                SymbolKind::Type(TypeInfo::Enum(_) | TypeInfo::Newtype(_) | TypeInfo::Builtin) => return false,
+                _ => return true,
+            }
+        }
+        true
+    }
+
     /// Validate method call arguments against a method signature.
     pub(in crate::frontend::typechecker::check_expr) fn validate_method_call_args(
         &mut self,
@@ -68,10 +108,24 @@ impl TypeChecker {
             };
 
             if let Some((arg_ty, arg_span)) = arg {
-                // A parameter typed by a trait accepts any adopter; conformance is not checked here.
-                let param_is_trait = matches!(param_ty, ResolvedType::Named(n)
-                    if self.symbols.lookup(n).and_then(|id| self.symbols.get(id)).is_some_and(|s| matches!(s.kind, SymbolKind::Trait(_))));
-                if !param_is_trait && !self.types_compatible(arg_ty, param_ty) {
+                // A parameter typed by a trait accepts any adopter of that trait.
+                let param_trait = match param_ty {
+                    ResolvedType::Named(n)
+                        if self
+                            .symbols
+                            .lookup(n)
+                            .and_then(|id| self.symbols.get(id))
+                            .is_some_and(|s| matches!(s.kind, SymbolKind::Trait(_))) =>
+                    {
+                        Some(n.as_str())
+                    }
+                    _ => None,
+                };
+                let compatible = match param_trait {
+                    Some(trait_name) => self.type_adopts_trait(arg_ty, trait_name),
+                    None => self.types_compatible(arg_ty, param_ty),
+                };
+                if !compatible {
                     self.errors.push(errors::type_mismatch(
                         &param_ty.to_string(),
                         &arg_ty.to_string(),
